@@ -44,7 +44,7 @@ def block(rnd, scope, fns, depth, inloop, infn, ctr):
         if depth <= 0 or r < 0.35:
             c = rnd.random()
             if c < 0.45:
-                out.append({'k': 'assign', 'name': rnd.choice([v for v in scope if v[0] not in 'wek'] or ['lv']), 'e': rexp(rnd, scope, fns)})
+                out.append({'k': 'assign', 'name': rnd.choice([v for v in scope if v[0] not in 'wekc'] or ['lv']), 'e': rexp(rnd, scope, fns)})
             elif c < 0.8:
                 out.append({'k': 'expr', 'e': J.call('probe', J.num(rnd.randint(0, 99)), rexp(rnd, scope, fns))})
             elif c < 0.87 and inloop:
@@ -61,6 +61,18 @@ def block(rnd, scope, fns, depth, inloop, infn, ctr):
             has_else = rnd.random() < 0.5
             out.append({'k': 'if', 'arms': arms, 'hasElse': has_else,
                         'els': block(rnd, scope, fns, depth - 1, inloop, infn, ctr) if has_else else []})
+        elif r < 0.66:
+            # while on a VALUE (any type), re-tested at the footer: runs twice when the value is truthy
+            ctr[0] += 1
+            iv, cv = f'w{ctr[0]}', f'c{ctr[0]}'
+            out.append({'k': 'assign', 'name': iv, 'e': J.num(0)})
+            out.append({'k': 'assign', 'name': cv, 'e': J.var(rnd.choice([v for v in scope if v[0] not in 'wekc'] or ['ga']))})
+            body = [{'k': 'assign', 'name': iv, 'e': {'k': 'bin', 'op': '+', 'l': J.var(iv), 'r': J.num(1)}},
+                    {'k': 'expr', 'e': J.call('probe', J.num(rnd.randint(600, 699)), J.var(iv))},
+                    {'k': 'if', 'arms': [{'cond': {'k': 'bin', 'op': '>=', 'l': J.var(iv), 'r': J.num(2)},
+                                          'body': [{'k': 'assign', 'name': cv, 'e': J.var('null')}]}], 'hasElse': False, 'els': []}] + \
+                block(rnd, scope + [iv], fns, depth - 1, True, infn, ctr)
+            out.append({'k': 'while', 'cond': J.var(cv), 'body': body})
         elif r < 0.8:
             ctr[0] += 1
             iv = f'w{ctr[0]}'
@@ -103,6 +115,17 @@ def rprogram(rnd, maxdepth=5):
         body += block(rnd, args + GVARS[:2] + ['lv'], callable_, rnd.randint(1, max(1, maxdepth - 1)), False, True, ctr)
         prog.append({'k': 'function', 'name': f, 'args': args, 'last': False, 'body': body})
     prog += block(rnd, GVARS, fns, rnd.randint(1, maxdepth), False, False, ctr)
+    if rnd.random() < 0.15:
+        # a function defined inside a block at global scope, with its own loop
+        inner = block(rnd, ['pa'] + GVARS[:2], [], 2, False, True, ctr)
+        fdef = {'k': 'function', 'name': 'fnin', 'args': ['pa'], 'last': False, 'body': inner}
+        wrap = rnd.choice(['if', 'for'])
+        if wrap == 'if':
+            prog.append({'k': 'if', 'arms': [{'cond': J.var('ga'), 'body': [fdef]}], 'hasElse': False, 'els': []})
+        else:
+            ctr[0] += 1
+            prog.append({'k': 'for', 'var': f'e{ctr[0]}', 'idx': '', 'e': J.call('arrayNew', J.num(1), J.num(2)), 'body': [fdef]})
+        prog.append({'k': 'expr', 'e': J.call('probe', J.num(501), J.call('fnin', J.num(2)))})
     if fns and rnd.random() < 0.5:
         prog.append({'k': 'assign', 'name': 'fval', 'e': J.var(rnd.choice(fns))})
         prog.append({'k': 'expr', 'e': J.call('probe', J.num(500), J.call('fval', J.num(1)))})
